@@ -84,7 +84,7 @@ class Ctx:
         self.discharged = 0
         self.axioms = set()
         self.notes = []
-        self.work = os.path.join(BUILD, pid)
+        self.work = os.path.join(BUILD, pid + ("-alt" if os.environ.get("VERIF_REPO") else ""))
         os.makedirs(self.work, exist_ok=True)
 
     @property
@@ -138,17 +138,30 @@ class Ctx:
         return True, new
 
     # ------------------------------------------------------------------ coq
-    def coq_gate(self, dirs=("theories",)):
+    def coq_gate(self, files):
+        """forbidden-vernacular gate over the given project-relative .v files (comments stripped)."""
         bad = []
-        for d in dirs:
-            for root, _, files in os.walk(os.path.join(COQ, d)):
-                for f in files:
-                    if f.endswith(".v"):
-                        p = os.path.join(root, f)
-                        for i, line in enumerate(open(p, errors="replace"), 1):
-                            code = re.sub(r"\(\*.*?\*\)", "", line)
-                            if FORBIDDEN.search(code):
-                                bad.append("%s:%d: %s" % (os.path.relpath(p, VERIF), i, line.strip()))
+        for rel in files:
+            p = os.path.join(COQ, rel)
+            if not os.path.exists(p):
+                continue
+            txt = open(p, errors="replace").read()
+            # strip (possibly nested) comments
+            out, depth, i = [], 0, 0
+            while i < len(txt):
+                if txt.startswith("(*", i):
+                    depth += 1
+                    i += 2
+                elif txt.startswith("*)", i) and depth > 0:
+                    depth -= 1
+                    i += 2
+                else:
+                    if depth == 0 or txt[i] == "\n":
+                        out.append(txt[i])
+                    i += 1
+            for n, line in enumerate("".join(out).splitlines(), 1):
+                if FORBIDDEN.search(line):
+                    bad.append("%s:%d: %s" % (rel, n, line.strip()))
         return bad
 
     def coq_build(self, targets, timeout=1500):
@@ -163,12 +176,16 @@ class Ctx:
         """Gate + build Properties/<pid>.vo (forcing its Print Assumptions to be re-printed),
         parse the assumptions, count obligations. Records proof_broken findings. returns ok."""
         pid = pid or self.pid
-        bad = self.coq_gate()
-        if bad:
-            self.proof_broken("forbidden-vernacular-gate", "\n".join(bad))
-            return False
         prop_v = "theories/Properties/%s.v" % pid
         prop_vo = prop_v + "o"
+        with Lock("coq"):
+            ensure_coq_makefile()
+        closure = self.coq_closure(prop_v)
+        bad = self.coq_gate(closure)
+        if bad:
+            self.coq_log = "\n".join(bad)
+            self.failed_at = "forbidden-vernacular-gate"
+            return False
         ok, out = self.coq_build(list(extra_targets) + [prop_vo], timeout=timeout)
         if not ok:
             m = re.findall(r'File "\./(theories/[^"]+)", line (\d+)', out)
@@ -201,7 +218,7 @@ class Ctx:
             return False
         self.n_theorems = n_print
         self.closed_theorems = closed
-        srcs = sources or self.coq_closure(prop_v)
+        srcs = sources or closure
         nq = 0
         for s in srcs:
             txt = open(os.path.join(COQ, s), errors="replace").read()
